@@ -21,6 +21,7 @@ CONSTANTS Clients, Users, PeerIPs, PeerPorts,
           Listening,    \* peers that accept connections (others refuse: 447)
           MaxConns,     \* bound on connection ids ever created (model bound)
           DefaultLife, PermTO, BindTO,
+          SlowDial,     \* BOOLEAN: also explore a Connect whose outgoing dial takes time
           MaxDepth
 
 VARIABLES alloc, perm, conn, nextId, out, last
@@ -43,8 +44,13 @@ Live(c)    == alloc[c].live
 Owns(c, u) == Live(c) /\ alloc[c].user = u
 ConnsOf(c) == {id \in Ids : conn[id].open /\ conn[id].owner = c}
 Resp(c, m, cls, code) == [k |-> "resp", to |-> c, m |-> m, cls |-> cls, code |-> code]
+\* alloc[c].dial (present only meanwhile): the peer a Connect of c is dialling.  The server reads a control connection
+\* one request at a time, so c itself is not served until the dial ends; everybody else is.
+Dialing(c) == "dial" \in DOMAIN alloc[c]
+AnyDial    == \E c \in Clients : Dialing(c)
 
 Allocate(c, u) ==
+  /\ ~Dialing(c)
   /\ last' = [a |-> "Allocate", c |-> c, u |-> u]
   /\ IF Live(c)
        THEN UNCHANGED state /\ out' = {Resp(c, "Allocate", "err", 437)}
@@ -53,6 +59,7 @@ Allocate(c, u) ==
             /\ out' = {Resp(c, "Allocate", "ok", 0)}
 
 CreatePermission(c, u, i) ==
+  /\ ~Dialing(c)
   /\ last' = [a |-> "CreatePermission", c |-> c, u |-> u, ips |-> <<i>>]
   /\ IF ~Owns(c, u) THEN UNCHANGED state /\ out' = {}
      ELSE IF <<c, i>> \in Denied THEN UNCHANGED state /\ out' = {Resp(c, "CreatePermission", "err", 0)}
@@ -62,7 +69,8 @@ CreatePermission(c, u, i) ==
 (* handleConnectRequest + Manager.CreateTCPConnection *)
 Dup(c, p) == \E id \in ConnsOf(c) : conn[id].peer = p
 Connect(c, u, p) ==
-  /\ nextId <= MaxConns
+  /\ ~Dialing(c)
+  /\ nextId <= (IF AnyDial THEN MaxConns - 1 ELSE MaxConns)
   /\ last' = [a |-> "Connect", c |-> c, u |-> u, p |-> p]
   /\ IF ~Owns(c, u) THEN UNCHANGED state /\ out' = {}
      ELSE IF <<c, p[1]>> \in Denied THEN UNCHANGED state /\ out' = {Resp(c, "Connect", "err", 403)}
@@ -75,9 +83,32 @@ Connect(c, u, p) ==
           /\ out' = {[k |-> "resp", to |-> c, m |-> "Connect", cls |-> "ok", code |-> 0, id |-> nextId],
                      [k |-> "peeraccept", peer |-> p, from |-> c]}
 
+(* a Connect whose dial toward the peer takes time (Manager.CreateTCPConnection is inside AllocateConn): nothing is    *)
+(* registered and nothing is answered yet; no lock is held meanwhile -- other data connections are bound, peers   *)
+(* connect, timers fire.  DialDone: the dial succeeds, the connection is registered and the Connect is answered. *)
+ConnectSlow(c, u, p) ==
+  /\ SlowDial /\ ~AnyDial /\ nextId <= MaxConns
+  /\ Owns(c, u) /\ <<c, p[1]>> \notin Denied /\ ~Dup(c, p) /\ p \in Listening
+  /\ last' = [a |-> "ConnectSlow", c |-> c, u |-> u, p |-> p]
+  /\ alloc' = [alloc EXCEPT ![c] = [live |-> TRUE, user |-> alloc[c].user, rem |-> alloc[c].rem, dial |-> p]]
+  /\ UNCHANGED <<perm, conn, nextId>>
+  /\ out' = {}
+DialDone(c) ==
+  /\ Dialing(c) /\ nextId <= MaxConns
+  /\ LET p == alloc[c].dial IN
+     /\ last' = [a |-> "DialDone", c |-> c, p |-> p]
+     /\ alloc' = [alloc EXCEPT ![c] = [live |-> TRUE, user |-> alloc[c].user, rem |-> alloc[c].rem]]
+     /\ conn' = [conn EXCEPT ![nextId] = [open |-> TRUE, owner |-> c, peer |-> p, dir |-> "out",
+                                          bound |-> FALSE, rem |-> BindTO, held |-> <<>>]]
+     /\ nextId' = nextId + 1
+     /\ UNCHANGED perm
+     /\ out' = {[k |-> "resp", to |-> c, m |-> "Connect", cls |-> "ok", code |-> 0, id |-> nextId],
+                [k |-> "peeraccept", peer |-> p, from |-> c]}
+
 (* Allocation.connHandler: a peer dials the relayed address of c *)
 PeerConnect(c, p) ==
-  /\ nextId <= MaxConns
+  /\ ~(Dialing(c) /\ alloc[c].dial = p)
+  /\ nextId <= (IF AnyDial THEN MaxConns - 1 ELSE MaxConns)
   /\ last' = [a |-> "PeerConnect", c |-> c, p |-> p]
   /\ IF ~Live(c) THEN UNCHANGED state /\ out' = {[k |-> "peerrefused", peer |-> p]}
      ELSE IF perm[c][p[1]] = 0 \/ Dup(c, p)
@@ -136,7 +167,7 @@ Gone(S) == {[k |-> "closed", id |-> id, what |-> "peerconn"] : id \in S}
 
 (* the control connection closes: the allocation and everything it owns go *)
 ControlClose(c) ==
-  /\ Live(c)
+  /\ Live(c) /\ ~Dialing(c)
   /\ last' = [a |-> "ControlClose", c |-> c]
   /\ alloc' = [alloc EXCEPT ![c] = NoAlloc]
   /\ perm'  = [perm EXCEPT ![c] = [i \in PeerIPs |-> 0]]
@@ -148,7 +179,7 @@ ControlClose(c) ==
 (* that was accepted earlier tries afterwards has no effect                                       *)
 Down == \E c \in Clients : "down" \in DOMAIN alloc[c]
 ServerClose ==
-  /\ ~Down
+  /\ ~Down /\ ~AnyDial
   /\ last' = [a |-> "ServerClose"]
   /\ alloc' = [c \in Clients |-> [live |-> FALSE, down |-> TRUE]]
   /\ perm'  = [c \in Clients |-> [i \in PeerIPs |-> 0]]
@@ -167,6 +198,7 @@ MinRem == CHOOSE m \in Rems : \A r \in Rems : m <= r
 Jumps  == IF Rems = {} THEN {} ELSE {1, MinRem - 1, MinRem} \ {0}
 Advance(d) ==
   /\ Rems # {} /\ d >= 1 /\ d <= MinRem
+  /\ \A c \in Clients : Dialing(c) => alloc[c].rem > d
   /\ last' = [a |-> "Advance", d |-> d]
   /\ LET dead == {c \in Clients : alloc[c].live /\ alloc[c].rem = d}
          gone == {id \in Ids : conn[id].open /\ (conn[id].owner \in dead \/ (~conn[id].bound /\ conn[id].rem = d))}
@@ -184,6 +216,8 @@ LiveNext ==
   \/ \E c \in Clients, u \in Users, i \in PeerIPs : CreatePermission(c, u, i)
   \/ \E c \in Clients, u \in Users, p \in Peers : Connect(c, u, p)
   \/ \E c \in Clients, p \in Peers : PeerConnect(c, p)
+  \/ \E c \in Clients, u \in Users, p \in Peers : ConnectSlow(c, u, p)
+  \/ \E c \in Clients : DialDone(c)
   \/ \E u \in Users, id \in Ids \cup {0} : ConnectionBind(u, id)
   \/ \E id \in Ids, pay \in {"x", "y"} : DataC2P(id, pay) \/ DataP2C(id, pay)
   \/ \E id \in Ids : Duplex(id)
